@@ -311,9 +311,12 @@ def feature(cfg):
 
 
 def run(tier, seed, replay=None):
+    import time
     v = Verdict("C29", tier, seed, "model_checking")
     use_repo()
     states = trans = 0
+    t0 = time.time()
+    phase = {}
     if replay:
         c = replay["case"]
         jobs = [{"cfg": c["cfg"], "hists": [r["hist"] for r in c["runs"]], "split": False}]
@@ -334,17 +337,26 @@ def run(tier, seed, replay=None):
         nA, nB = len(gA), len(gB)
         rnd = random.Random(seed)
         rnd.shuffle(jobs)           # balance the pool; the set of jobs does not depend on the seed
+    phase["model_s"] = round(time.time() - t0, 1)
+    t0 = time.time()
     cases = [c for cs in pool_map(observe, jobs, chunksize=4) for c in cs]
-    fails, st = tlc_obs("ProtectionObs", "ProtectionObs.cfg", cases, chunk=4000)
+    phase["replay_s"] = round(time.time() - t0, 1)
+    t0 = time.time()
+    fails, st = tlc_obs("ProtectionObs", "ProtectionObs.cfg", cases, chunk=10000)
+    phase["obs_s"] = round(time.time() - t0, 1)
+    div = {}
     for name, i in fails:
         c = cases[i]
         errs = sorted({o["err"] for r in c["runs"] for o in r["obs"] if o["err"]} | ({c["berr"]} if c["berr"] else set()))
         what = "%s: cfg=%s histories=%s%s" % (name, c["cfg"], [[(a["op"], a["I"]) for a in r["hist"]] for r in c["runs"]][:3],
                                              (" errors=%s" % errs[:2]) if errs else "")
         if name.startswith("Bind_"):
-            v.divergence(what[:600], None)
+            k = "%s|%s|%s" % (name, c["cfg"]["kind"], feature(c["cfg"]))
+            div.setdefault(k, [0, what])[0] += 1
             continue
         v.violation("C29|%s|%s|%s|%s" % (name, c["cfg"]["kind"], feature(c["cfg"]), life(c)), what[:900], c)
+    for k, (n, what) in sorted(div.items()):
+        v.divergence("%s (%d cases) e.g. %s" % (k, n, what[:500]), None)
     # ---- coverage (measured on the observations) ----
     n_hist = sum(len(c["runs"]) for c in cases)
     evals = [(json.dumps(c["cfg"], sort_keys=True), a["I"], o) for c in cases for r in c["runs"]
@@ -372,6 +384,7 @@ def run(tier, seed, replay=None):
         "histories_after_str": sum(1 for c in cases if len(c["runs"]) == 1 and life(c) == "after_str"),
         "actions_raising": sum(1 for c in cases for r in c["runs"] for o in r["obs"] if not o["ok"]),
         "thresholds_not_bit_identical": sum(1 for c in cases for n, s in c["same"].items() if not s),
+        "phase_wall_s": phase,
         "samples": [cases[k] for k in range(0, len(cases), max(1, len(cases) // 3))][:3],
     }
     v.assumptions = [
